@@ -957,6 +957,15 @@ example : (historyF (faultWorld true) emptyStore
   transparent_unless_write_fault (faultWorld true) (faultWorld_hyp true) _ (inv_empty _) (by decide)
     (by decide)
 
+/-- a write fault surfaces even when the entry has been given up already: the placeholder write
+fails (the name is removed), the tee goes on into the unlinked file, its first `Write` fails — the
+command fails with no output, and nothing is left (harness case "placeholder fails, then a write") -/
+example : (stepF (faultWorld true) emptyStore (faultRun { create := .placeholder 1, writes := [some 0] })).2
+    = ⟨[], 1⟩ := by decide
+
+example : (stepF (faultWorld true) emptyStore (faultRun { create := .placeholder 1, writes := [some 0] })).1 "10"
+    = none := by decide
+
 /-- non-vacuity of `stepF_nofault` -/
 example : stepF (faultWorld true) emptyStore (faultRun {})
     = step (faultWorld true).toWorld emptyStore ((faultRun {}).toRun true) :=
